@@ -54,7 +54,7 @@ def style_of(p: dict) -> dict:
 
 def render_all(ctx: Ctx, progs: list[dict], lib: dict, consts: dict) -> None:
     d = ctx.work / "mods"
-    libfns = {n: {"params": f["params"], "body": f["body"]} for n, f in lib.items()}
+    libfns = {n: {"params": f["params"], "body": f["body"], "defs": f.get("defs", [])} for n, f in lib.items()}
     render.write_module(d, LIBMOD, render.module_src(libfns, consts))
     render.write_module(d, LIBMOD + "x", render.module_src(libfns, consts, exact=True))
     for c0 in range(0, len(progs), CHUNK):
@@ -368,7 +368,9 @@ def overlapping_call(body: list, lib: dict) -> bool:
         for x in walk_exprs(s["e"]):
             if x["k"] == "call" and x["name"] in lib:
                 ps = lib[x["name"]]["params"]
-                for j, a in enumerate(x["args"]):
+                kw = x.get("kw") or [""] * len(x["args"])
+                for j0, a in enumerate(x["args"]):
+                    j = ps.index(kw[j0]) if kw[j0] in ps else j0
                     names = {y["name"] for y in walk_exprs(a) if y["k"] == "var"}
                     names |= set().union(*[dep.get(nm, set()) for nm in names]) if names else set()
                     if names & (set(ps) - {ps[j] if j < len(ps) else None}):
@@ -412,6 +414,7 @@ CONSTANTS
     BoolOn = {boolon}
     IteOn = {ite}
     CallOn = {calls}
+    CallModes = {modes}
     AugOn = {aug}
     PassOn = {passon}
     ChainOn = {chain}
@@ -428,28 +431,29 @@ CONSTANTS
 INVARIANTS EmitLib PWTheorem LibTheorem WellFormedAlways
 """
 
+ALLMODES = '{"pos", "kw", "kwrev", "mix", "def", "defkw"}'
 PROFILES = {
     # every construct the translator claims to support, shallow expressions: control flow dominates
     "core1": dict(arities="{1, 2}", locals='{"y"}', consts='{"K"}', un='{"neg"}', bin='{"add", "sub", "mul", "div"}',
-                  chains="TRUE", boolon="{}", ite="TRUE", calls='{"sub2", "pick", "loc", "ratio"}', minst=2, depth=1, aug="{}", loop="FALSE", chain="FALSE", passon="FALSE", maxst=4),
+                  chains="TRUE", boolon="{}", ite="TRUE", calls='{"sub2", "pick", "loc", "ratio", "dflt"}', modes=ALLMODES, minst=2, depth=1, aug="{}", loop="FALSE", chain="FALSE", passon="FALSE", maxst=4),
     "core2": dict(arities="{1, 2}", locals='{"y", "z"}', consts='{"K", "H"}', un='{"neg"}',
                   bin='{"add", "sub", "mul", "div", "pow"}', chains="TRUE", boolon="{}", ite="TRUE",
-                  calls='{"sub2", "subxy", "pick", "loc", "nest", "kmul", "ratio"}', minst=3, depth=2, aug="{}",
+                  calls='{"sub2", "subxy", "pick", "loc", "nest", "kmul", "ratio", "dflt"}', modes=ALLMODES, minst=3, depth=2, aug="{}",
                   loop="FALSE", chain="FALSE", passon="TRUE", maxst=4),
     # just outside the subset: assignment to a parameter, augmented assignment, while / for loops (must be refused)
     "outside": dict(arities="{1, 2}", locals='{"y", "a"}', consts='{"K"}', un='{"neg"}', bin='{"add", "sub", "mul"}',
-                    chains="FALSE", boolon="{}", ite="FALSE", calls='{"sub2"}', minst=3, depth=1,
+                    chains="FALSE", boolon="{}", ite="FALSE", calls='{"sub2"}', modes='{"pos", "kwrev"}', minst=3, depth=1,
                     aug='{"add", "mul", "sub"}', loop="TRUE", chain="TRUE", passon="TRUE", maxst=4),
     # guards: up to 6 statements, nested ifs / empty (pass) branches that fall through without binding anything,
     # followed by statements that re-bind a name (a local or a parameter) from its own old value
     "guard": dict(arities="{1, 2}", locals='{"y", "a"}', consts="{}", un="{}", bin='{"sub", "mul", "div"}',
-                  chains="FALSE", boolon="{}", ite="FALSE", calls="{}", minst=3, depth=1, aug="{}", loop="FALSE",
+                  chains="FALSE", boolon="{}", ite="FALSE", calls="{}", modes='{"pos"}', minst=3, depth=1, aug="{}", loop="FALSE",
                   chain="FALSE", passon="TRUE", maxst=6),
     # the whole grammar (min / max / abs / and / or / not are refused by the translator today)
     "full": dict(arities="{2, 3}", locals='{"y", "z"}', consts='{"K", "H"}', un='{"neg", "abs"}',
                  bin='{"add", "sub", "mul", "div", "pow", "floordiv", "mod", "min", "max"}', chains="TRUE",
                  boolon='{"and", "or", "not"}', ite="TRUE",
-                 calls='{"sub2", "subxy", "pick", "loc", "nest", "kmul", "ratio"}', minst=2, depth=2,
+                 calls='{"sub2", "subxy", "pick", "loc", "nest", "kmul", "ratio", "dflt"}', modes=ALLMODES, minst=2, depth=2,
                  aug='{"add"}', loop="TRUE", chain="TRUE", passon="TRUE", maxst=4),
 }
 
